@@ -1,6 +1,6 @@
 import Proofs.SubmitAct
 
-/-! The pending-submission limit (C08): what the header counter counts, the data half, the deadlock. -/
+/-! The pending-submission limit (C08): what the two counters count, and that both return to 0. -/
 namespace Submit
 open Wire Chain Producer
 
@@ -71,7 +71,7 @@ theorem W.step {c : Cfg} {a : ANode} (w : W c a) (act : Act) : W c (stepA c a ac
       · obtain ⟨b, dh, r1, r2, _, _, r3, _⟩ := headersIter_sound a s hok h (by omega) hb
         exact ⟨b, dh, r1, r2, r3⟩
   | subD s =>
-    obtain ⟨items, rem, pre, hi, _⟩ := dataIter_inv a s
+    obtain ⟨items, hi, _⟩ := dataIter_iter a s
     obtain ⟨new, hnew, _⟩ := hi.blobs
     have hw : (dataIter a s).1.n.hdrWm = a.n.hdrWm := hi.frame.otherWm
     have hmono : a.n.dataWm ≤ (dataIter a s).1.n.dataWm := hi.wmMono
@@ -111,140 +111,351 @@ theorem W.run {c : Cfg} {a : ANode} (w : W c a) (acts : List Act) : W c (runA c 
   | nil => exact w
   | cons act acts ih => exact ih (w.step act)
 
-/-! ### the data half -/
+/-! ### the data half: lists of data items -/
 
-theorem dataItems_lastH {bs : List Block} (hne : bs ≠ []) (hl : (bs.getLast hne).data.txs ≠ []) :
-    lastH (dataItems bs) = dataHeight (bs.getLast hne) := by
-  have hb := List.dropLast_concat_getLast hne
-  generalize bs.getLast hne = l at hl hb
-  rw [← hb]
-  have hp : (!l.data.txs.isEmpty) = true := by
-    cases h : l.data.txs with
-    | nil => exact absurd h hl
-    | cons _ _ => rfl
-  simp [dataItems, lastH, List.filter_append, hp]
+/-- the pending block of index `i` is the block at `w + 1 + i` -/
+theorem pendingBlocks_mem_of {s : Store} {w : Nat} {bs : List Block} (h : pendingBlocks s w = some bs)
+    {k : Nat} {b : Block} (k1 : w < k) (k2 : k ≤ s.height) (hb : s.getBlock k = some b) : b ∈ bs := by
+  obtain ⟨hl, hget⟩ := pendingBlocks_some h
+  have hi : k - w - 1 < bs.length := by omega
+  have := hget (k - w - 1) hi
+  have hidx : w + 1 + (k - w - 1) = k := by omega
+  rw [hidx, hb] at this
+  have e : b = bs[k - w - 1] := by simpa using this
+  rw [e]; exact List.getElem_mem _
 
-/-- **with a non-empty last block, a data iteration against a DA layer that accepts (after fewer than 30 failures) brings
-the data watermark to the chain height** -/
-theorem dataIter_reaches (a : ANode) (fails tail : List DAAns) (htail : tail.headD (.ok none) = .ok none)
+theorem dataItems_mem_of {s : Store} {w : Nat} {bs : List Block} (h : pendingBlocks s w = some bs)
+    {k : Nat} {b : Block} (k1 : w < k) (k2 : k ≤ s.height) (hb : s.getBlock k = some b) (hne : b.data.txs ≠ []) :
+    ({ height := dataHeight b, key := b.data.daCommitment } : Item) ∈ dataItems bs := by
+  unfold dataItems
+  refine List.mem_map.mpr ⟨b, List.mem_filter.mpr ⟨pendingBlocks_mem_of h k1 k2 hb, ?_⟩, rfl⟩
+  cases ht : b.data.txs with
+  | nil => exact absurd ht hne
+  | cons _ _ => rfl
+
+/-- when nothing is left to submit every pending block is empty -/
+theorem dataItems_nil {s : Store} {w : Nat} {bs : List Block} (h : pendingBlocks s w = some bs) (he : dataItems bs = [])
+    {k : Nat} {b : Block} (k1 : w < k) (k2 : k ≤ s.height) (hb : s.getBlock k = some b) : b.data.txs = [] := by
+  cases ht : b.data.txs with
+  | nil => rfl
+  | cons x xs =>
+    have := dataItems_mem_of h k1 k2 hb (by rw [ht]; simp)
+    rw [he] at this; cases this
+
+/-- the data items are in increasing height order when the blocks carry their height in the data metadata -/
+theorem dataItems_sorted {s : Store} {w : Nat} {bs : List Block} (h : pendingBlocks s w = some bs) (hok : DataOK s w) :
+    (dataItems bs).Pairwise (fun x y => x.height < y.height) := by
+  obtain ⟨hl, hget⟩ := pendingBlocks_some h
+  have hdh : ∀ i (hi : i < bs.length), dataHeight bs[i] = w + 1 + i := by
+    intro i hi
+    obtain ⟨b, hb, hh⟩ := hok (w + 1 + i) (by omega) (by omega)
+    rw [hget i hi] at hb
+    have : bs[i] = b := by simpa using hb
+    rw [this]; exact hh
+  have hp : bs.Pairwise (fun x y => dataHeight x < dataHeight y) := by
+    rw [List.pairwise_iff_getElem]
+    intro i j hi hj hij
+    rw [hdh i hi, hdh j hj]; omega
+  unfold dataItems
+  rw [List.pairwise_map]
+  exact hp.filter _
+
+theorem le_lastH_of_sorted {items : List Item} (hs : items.Pairwise (fun x y => x.height < y.height))
+    {x : Item} (hx : x ∈ items) : x.height ≤ lastH items := by
+  have hne : items ≠ [] := by intro e; rw [e] at hx; cases hx
+  unfold lastH
+  cases hg : items.getLast? with
+  | none => exact absurd (List.getLast?_eq_none_iff.mp hg) hne
+  | some z =>
+    have hz : items = items.dropLast ++ [z] := by
+      have := List.dropLast_concat_getLast hne
+      have hzz : items.getLast hne = z := by
+        have h' := List.getLast?_eq_some_getLast hne
+        rw [hg] at h'; simpa using h'.symm
+      rw [hzz] at this; exact this.symm
+    rw [hz] at hx hs
+    rcases List.mem_append.mp hx with hx | hx
+    · have := (List.pairwise_append.mp hs).2.2 x hx z (by simp)
+      simp; omega
+    · simp at hx; subst hx; simp
+
+/-! ### every committed block carries its height in the data metadata -/
+
+theorem finish_meta {c : Cfg} {n : Node} (ws : List SW) (sh : SHeader) (d : Data) (ldh : Bytes) (ex : ExecResp)
+    (hh : sh.hdr.height = n.store.height + 1)
+    (hup : (finish c n ws sh d ldh ex).1.store.height = n.store.height + 1) :
+    ((finish c n ws sh d ldh ex).1.store.getBlock (n.store.height + 1)).map dataHeight = some (n.store.height + 1) := by
+  unfold finish at hup ⊢
+  cases ex with
+  | fail => exact absurd hup (by show ¬ n.store.height = n.store.height + 1; omega)
+  | ok =>
+    simp only [signed, withMeta] at hup ⊢
+    split
+    · rename_i hv
+      rw [hv] at hup
+      exact absurd hup (by show ¬ n.store.height = n.store.height + 1; omega)
+    · simp only [hh]
+      show ((Store.applyAll _ _).getBlock _).map dataHeight = _
+      rw [(applyAll_setHeightW _ _).2.1, getBlock_updateState, getBlock_saveBlock_same]
+      simp [dataHeight, hh]
+
+theorem publish_meta {c : Cfg} {n : Node} (hi : Inv c n) (resp : SeqResp) (ex : ExecResp)
+    (hup : (publish c n resp ex).1.store.height = n.store.height + 1) :
+    ((publish c n resp ex).1.store.getBlock (n.store.height + 1)).map dataHeight = some (n.store.height + 1) := by
+  have hno : ¬ n.store.height = n.store.height + 1 := by omega
+  unfold publish at hup ⊢
+  split
+  · rename_i h; rw [if_pos h] at hup; exact absurd hup hno
+  · rename_i h; rw [if_neg h] at hup
+    split
+    · rename_i hp; rw [hp] at hup; exact absurd hup hno
+    · rename_i ls lhh ldh lht hp
+      rw [hp] at hup
+      simp only at hup
+      split
+      · rename_i pb hpb
+        rw [hpb] at hup
+        exact finish_meta [] pb.sh pb.data _ ex (hi.pend pb hpb).height hup
+      · rename_i hnone
+        rw [hnone] at hup
+        simp only at hup
+        unfold fresh at hup ⊢
+        cases resp with
+        | err => exact absurd hup hno
+        | absent => exact absurd hup hno
+        | batch txs ts bd =>
+          simp only at hup ⊢
+          split
+          · rename_i hr; rw [if_pos hr] at hup; exact absurd hup hno
+          · rename_i hr; rw [if_neg hr] at hup
+            split
+            · rename_i hsg; rw [if_pos hsg] at hup; exact absurd hup hno
+            · rename_i hsg; rw [if_neg hsg] at hup
+              unfold buildAndFinish at hup ⊢
+              obtain ⟨f1, _⟩ := createBlock_facts c n.lastState (n.store.height + 1) ls lhh txs ts
+              exact finish_meta (c := c) _ _ _ _ ex f1 hup
+
+theorem map_dataHeight_some {o : Option Block} {k : Nat} (h : o.map dataHeight = some k) :
+    ∃ b, o = some b ∧ dataHeight b = k := by
+  cases o with
+  | none => simp at h
+  | some b => exact ⟨b, rfl, by simpa using h⟩
+
+/-- the data side of the reachable-node invariant: **every committed block carries its own height in its data metadata**
+(`publishBlockInternal` appends the metadata before saving, for empty blocks too), and **every committed height at or
+below the data watermark is an empty block or a block whose signed data the DA double holds** -/
+structure D (c : Cfg) (a : ANode) : Prop where
+  mh : ∀ h, c.initialHeight ≤ h → h ≤ a.n.store.height → ∃ b, a.n.store.getBlock h = some b ∧ dataHeight b = h
+  dacc : ∀ h, c.initialHeight ≤ h → h ≤ a.n.dataWm → ∃ b, a.n.store.getBlock h = some b ∧
+    (b.data.txs = [] ∨ ∃ dh, (dh, true, h) ∈ a.daBlobs)
+
+theorem D.dataOK {c : Cfg} {a : ANode} (d : D c a) (hlow : c.initialHeight ≤ a.n.dataWm + 1) :
+    DataOK a.n.store a.n.dataWm := fun h h1 h2 => d.mh h (by omega) h2
+
+theorem D_fresh (c : Cfg) (h1 : 1 ≤ c.initialHeight) : D c (freshA c) := by
+  have w := W_fresh c h1
+  obtain ⟨hh, _, _, _⟩ := freshDisk_facts c
+  have hht : (freshNode c).store.height = c.initialHeight - 1 := hh
+  refine ⟨fun h ha hb => ?_, fun h ha hb => ?_⟩
+  · have : h ≤ (freshNode c).store.height := hb
+    omega
+  · have q1 : h ≤ (freshNode c).dataWm := hb
+    have q2 : (freshNode c).dataWm ≤ (freshNode c).store.height := w.dle
+    omega
+
+/-- a frame step: blocks and height unchanged, the DA double only grows, the data watermark unchanged -/
+theorem D.of_frame {c : Cfg} {a a' : ANode} (d : D c a) (hh : a'.n.store.height = a.n.store.height)
+    (hb : ∀ k, a'.n.store.getBlock k = a.n.store.getBlock k) (hd : ∀ e ∈ a.daBlobs, e ∈ a'.daBlobs)
+    (hw : a'.n.dataWm = a.n.dataWm) : D c a' := by
+  refine ⟨fun h ha hb' => ?_, fun h ha hb' => ?_⟩
+  · rw [hb]; exact d.mh h ha (by rw [← hh]; exact hb')
+  · obtain ⟨b, r1, r2⟩ := d.dacc h ha (by rw [← hw]; exact hb')
+    refine ⟨b, by rw [hb]; exact r1, ?_⟩
+    rcases r2 with r2 | ⟨dh, r2⟩
+    · exact Or.inl r2
+    · exact Or.inr ⟨dh, hd _ r2⟩
+
+/-- **soundness of the data watermark at the level of one data iteration**: every height the watermark moved past is a
+stored block that is empty, or whose signed data the DA double stored during this iteration, the block's data commitment
+being marked with that DA height -/
+theorem dataIter_sound (a : ANode) (script : List DAAns) (hok : DataOK a.n.store a.n.dataWm)
+    (hle : a.n.dataWm ≤ a.n.store.height) :
+    ∀ h, a.n.dataWm < h → h ≤ (dataIter a script).1.n.dataWm →
+      ∃ b, a.n.store.getBlock h = some b ∧ dataHeight b = h ∧
+        (b.data.txs = [] ∨ ∃ dh, a.daH ≤ dh ∧ dh < (dataIter a script).1.daH ∧
+          (dh, true, h) ∈ (dataIter a script).1.daBlobs ∧ (b.data.daCommitment, dh) ∈ (dataIter a script).1.dMarks) := by
+  intro h h1 hb'
+  obtain ⟨items, hi, _⟩ := dataIter_iter a script
+  have hle' := dataIter_wm_le a script hok hle
+  have hht : (dataIter a script).1.n.store.height = a.n.store.height := hi.frame.height
+  have h2 : h ≤ a.n.store.height := by omega
+  obtain ⟨b, r1, r2⟩ := hok h h1 h2
+  refine ⟨b, r1, r2, ?_⟩
+  by_cases hne : b.data.txs = []
+  · exact Or.inl hne
+  · right
+    rcases dataIter_cases a script with ⟨he, _⟩ | ⟨he, _⟩ | ⟨bs, _, hbs, hnil, _⟩ | ⟨bs, _, hbs, _, he⟩
+    · have q : h ≤ a.n.dataWm := by rw [he] at hb'; exact hb'
+      omega
+    · have q : h ≤ a.n.dataWm := by rw [he] at hb'; exact hb'
+      omega
+    · exact absurd (dataItems_nil hbs hnil h1 h2 r1) hne
+    · rw [he] at hb' ⊢
+      simp only [iterOf] at hb' ⊢
+      have hit := dataItems_mem_of hbs h1 h2 r1 hne
+      obtain ⟨dh, q1, q2, q3, q4⟩ := submitLoop_sound true maxSubmitAttempts a (dataItems bs) script []
+        (dataItems_sorted hbs hok) _ hit (by show a.n.dataWm < dataHeight b; omega)
+        (by show dataHeight b ≤ _; rw [r2]; exact hb')
+      exact ⟨dh, q1, q2, by simpa [r2] using q3, q4⟩
+
+theorem D.step {c : Cfg} {a : ANode} (w : W c a) (d : D c a) (act : Act) : D c (stepA c a act) := by
+  cases act with
+  | produce r e =>
+    have hs := publish_store w.pinv r e
+    obtain ⟨_, w2⟩ := publish_wm c a.n r e
+    refine ⟨fun h ha hb => ?_, fun h ha hb => ?_⟩
+    · show ∃ b, (publish c a.n r e).1.store.getBlock h = some b ∧ dataHeight b = h
+      have hb' : h ≤ (publish c a.n r e).1.store.height := hb
+      by_cases hold : h ≤ a.n.store.height
+      · rw [hs.2 h hold]; exact d.mh h ha hold
+      · have hup : (publish c a.n r e).1.store.height = a.n.store.height + 1 := by rcases hs.1 with q | q <;> omega
+        have hh : h = a.n.store.height + 1 := by omega
+        rw [hh]
+        exact map_dataHeight_some (publish_meta w.pinv r e hup)
+    · show ∃ b, (publish c a.n r e).1.store.getBlock h = some b ∧ _
+      have hb' : h ≤ a.n.dataWm := by rw [← w2]; exact hb
+      rw [hs.2 h (Nat.le_trans hb' w.dle)]
+      exact d.dacc h ha hb'
+  | subH s =>
+    obtain ⟨items, hi, _⟩ := headersIter_iter a s
+    obtain ⟨new, hnew, _⟩ := hi.blobs
+    exact d.of_frame hi.frame.height hi.frame.getBlock (fun e he => by show e ∈ (headersIter a s).1.daBlobs; rw [hnew]; exact List.mem_append_right _ he)
+      hi.frame.otherWm
+  | incl =>
+    have hi : PassInv a (includerIter a).1 (includerIter a).2 :=
+      includerPass_inv (a.n.store.height + 1) a a [] (PassInv.init a)
+    exact d.of_frame hi.frame.height hi.frame.getBlock
+      (fun e he => by show e ∈ (includerIter a).1.daBlobs; rw [show (includerIter a).1.daBlobs = a.daBlobs from hi.frame.daBlobs]; exact he) hi.frame.dataWm
+  | subD s =>
+    obtain ⟨items, hi, _⟩ := dataIter_iter a s
+    obtain ⟨new, hnew, _⟩ := hi.blobs
+    have hok := d.dataOK w.dlow
+    have hle' := dataIter_wm_le a s hok w.dle
+    have hht : (dataIter a s).1.n.store.height = a.n.store.height := hi.frame.height
+    refine ⟨fun h ha hb => ?_, fun h ha hb => ?_⟩
+    · show ∃ b, (dataIter a s).1.n.store.getBlock h = some b ∧ dataHeight b = h
+      rw [hi.frame.getBlock]; exact d.mh h ha (by rw [← hht]; exact hb)
+    · show ∃ b, (dataIter a s).1.n.store.getBlock h = some b ∧
+        (b.data.txs = [] ∨ ∃ dh, (dh, true, h) ∈ (dataIter a s).1.daBlobs)
+      have hb' : h ≤ (dataIter a s).1.n.dataWm := hb
+      rw [hi.frame.getBlock]
+      by_cases hold : h ≤ a.n.dataWm
+      · obtain ⟨b, r1, r2⟩ := d.dacc h ha hold
+        refine ⟨b, r1, ?_⟩
+        rcases r2 with r2 | ⟨dh, r2⟩
+        · exact Or.inl r2
+        · exact Or.inr ⟨dh, by rw [hnew]; exact List.mem_append_right _ r2⟩
+      · obtain ⟨b, r1, _, r3⟩ := dataIter_sound a s hok w.dle h (by omega) hb'
+        refine ⟨b, r1, ?_⟩
+        rcases r3 with r3 | ⟨dh, _, _, r3, _⟩
+        · exact Or.inl r3
+        · exact Or.inr ⟨dh, r3⟩
+
+/-! ### liveness of the data watermark -/
+
+/-- **one accepting data tick**: after a data iteration against a DA layer that accepts after fewer than 30
+non-cancellation failures, every block above the data watermark is empty (the watermark passed every non-empty block) -/
+theorem dataIter_accepting (a : ANode) (fails tail : List DAAns) (htail : tail.headD (.ok none) = .ok none)
     (hnc : DAAns.canceled ∉ fails) (hf : fails.length < maxSubmitAttempts)
-    (hok : DataOK a.n.store a.n.dataWm) (hlt : a.n.dataWm < a.n.store.height)
-    (hlast : ∀ b, a.n.store.getBlock a.n.store.height = some b → b.data.txs ≠ []) :
-    (dataIter a (fails ++ tail)).1.n.dataWm = (dataIter a (fails ++ tail)).1.n.store.height := by
-  rcases dataIter_cases a (fails ++ tail) with ⟨_, he⟩ | ⟨_, he⟩ | ⟨bs, _, hbs, hne, he⟩
-  · exfalso
-    rcases he with he | ⟨bs, hbs, hnil⟩
-    · omega
-    · obtain ⟨hl, hget⟩ := pendingBlocks_some hbs
-      have hne : bs ≠ [] := by intro e; rw [e] at hl; simp at hl; omega
-      have hi : bs.length - 1 < bs.length := by omega
-      have hg := hget (bs.length - 1) hi
-      have hidx : a.n.dataWm + 1 + (bs.length - 1) = a.n.store.height := by omega
-      rw [hidx] at hg
-      have := dataItems_lastH hne (by rw [List.getLast_eq_getElem]; exact hlast _ hg)
-      have hmem : bs[bs.length - 1] ∈ bs.filter (fun b => !b.data.txs.isEmpty) := by
-        rw [List.mem_filter]
-        refine ⟨List.getElem_mem _, ?_⟩
-        have := hlast _ hg
-        cases h : bs[bs.length - 1].data.txs with
-        | nil => exact absurd h this
-        | cons _ _ => rfl
-      have : bs.filter (fun b => !b.data.txs.isEmpty) = [] := by
-        simpa [dataItems] using hnil
-      rw [this] at hmem; simp at hmem
+    (hok : DataOK a.n.store a.n.dataWm) (hle : a.n.dataWm ≤ a.n.store.height) :
+    DataIdle (dataIter a (fails ++ tail)).1 := by
+  obtain ⟨items, hi, _⟩ := dataIter_iter a (fails ++ tail)
+  have hmono : a.n.dataWm ≤ (dataIter a (fails ++ tail)).1.n.dataWm := hi.wmMono
+  intro h h1 h2
+  rw [hi.frame.height] at h2
+  rw [hi.frame.getBlock]
+  obtain ⟨b, hb, hdh⟩ := hok h (by omega) h2
+  refine ⟨b, hb, ?_⟩
+  rcases dataIter_cases a (fails ++ tail) with ⟨_, he⟩ | ⟨_, he⟩ | ⟨bs, _, hbs, hnil, _⟩ | ⟨bs, _, hbs, _, he⟩
+  · omega
   · exfalso
     rcases he with he | he
     · omega
     · obtain ⟨bs, hbs⟩ := pendingBlocks_exists (s := a.n.store) (w := a.n.dataWm)
         (fun k k1 k2 => by obtain ⟨b, hb, _⟩ := hok k k1 k2; exact ⟨b, hb⟩)
       rw [hbs] at he; simp at he
-  · rw [he]
-    simp only [iterOf]
-    obtain ⟨hl, hget⟩ := pendingBlocks_some hbs
-    have hbne : bs ≠ [] := by intro e; rw [e] at hl; simp at hl; omega
-    have hi : bs.length - 1 < bs.length := by omega
-    have hg := hget (bs.length - 1) hi
-    have hidx : a.n.dataWm + 1 + (bs.length - 1) = a.n.store.height := by omega
-    rw [hidx] at hg
-    have hlastne := hlast _ hg
-    have hlh := dataItems_lastH hbne (by rw [List.getLast_eq_getElem]; exact hlastne)
-    have hdh : dataHeight (bs.getLast hbne) = a.n.store.height := by
-      rw [List.getLast_eq_getElem]
-      obtain ⟨b', hb', hh⟩ := hok a.n.store.height hlt (Nat.le_refl _)
-      rw [hg] at hb'
-      have : bs[bs.length - 1] = b' := by simpa using hb'
-      rw [this]; exact hh (by rw [← this]; exact hlastne)
-    have hall := submitLoop_retry true fails tail htail hnc maxSubmitAttempts hf a (dataItems bs) [] []
-    obtain ⟨h1, h2⟩ := submitLoop_wm_all true maxSubmitAttempts a (dataItems bs) (fails ++ tail) []
-    have hge := h1 hall
-    rw [hlh, hdh] at hge
-    obtain ⟨_, _, hinv, _⟩ := submitLoop_loopInv true maxSubmitAttempts a (dataItems bs) (fails ++ tail) []
-    rw [hinv.frame.height]
-    have hge' : a.n.store.height ≤ (submitLoop true maxSubmitAttempts a (dataItems bs) (fails ++ tail) [] []).1.n.dataWm := hge
-    rcases h2 with e | ⟨l, hlm, e⟩
-    · have e' : (submitLoop true maxSubmitAttempts a (dataItems bs) (fails ++ tail) [] []).1.n.dataWm = a.n.dataWm := e
-      omega
-    · have e' : (submitLoop true maxSubmitAttempts a (dataItems bs) (fails ++ tail) [] []).1.n.dataWm = l.height := e
-      obtain ⟨k, b, k1, k2, hb, hbne', rfl⟩ := dataItems_mem hbs l hlm
-      obtain ⟨b', hb', hh⟩ := hok k k1 k2
-      rw [hb] at hb'
-      have : b = b' := by simpa using hb'
-      subst this
-      have : dataHeight b = k := hh hbne'
-      simp only at e'
+  · exact dataItems_nil hbs hnil (by omega) h2 hb
+  · cases ht : b.data.txs with
+    | nil => rfl
+    | cons x xs =>
+      exfalso
+      have hne : b.data.txs ≠ [] := by rw [ht]; simp
+      have hit := dataItems_mem_of hbs (by omega) h2 hb hne
+      have hall := submitLoop_retry true fails tail htail hnc maxSubmitAttempts hf a (dataItems bs) [] []
+      have hge := (submitLoop_wm_all true maxSubmitAttempts a (dataItems bs) (fails ++ tail) []).1 hall
+      have hl := le_lastH_of_sorted (dataItems_sorted hbs hok) hit
+      rw [he] at h1
+      simp only [iterOf] at h1
+      have hge' : lastH (dataItems bs) ≤
+          (submitLoop true maxSubmitAttempts a (dataItems bs) (fails ++ tail) [] []).1.n.dataWm := hge
+      have hl' : dataHeight b ≤ lastH (dataItems bs) := hl
       omega
 
-/-! ### the deadlock -/
+/-- **a data tick over empty blocks**: when every block above the data watermark is empty, a data iteration — whatever
+the DA layer would answer: it is not asked — ends with `dataWm = chain height` and issues no `Submit` call -/
+theorem dataIter_idle_reaches {a : ANode} (h : DataIdle a) (hok : DataOK a.n.store a.n.dataWm)
+    (hle : a.n.dataWm ≤ a.n.store.height) (script : List DAAns) :
+    (dataIter a script).1.n.dataWm = (dataIter a script).1.n.store.height ∧ (dataIter a script).2.2.1 = [] := by
+  by_cases heq : a.n.store.height = a.n.dataWm
+  · rw [dataIter_skip heq]; exact ⟨heq.symm, rfl⟩
+  · have hlt : a.n.dataWm < a.n.store.height := by omega
+    obtain ⟨b, hb, he⟩ := dataIter_idle h hlt script
+    obtain ⟨b', hb', hh⟩ := hok _ hlt (Nat.le_refl _)
+    rw [hb] at hb'
+    have : b = b' := by simpa using hb'
+    subst this
+    rw [he]
+    have h7 : (raiseWm a true (dataHeight b)).1.n.dataWm = max a.n.dataWm (dataHeight b) :=
+      (raiseWm_spec a true (dataHeight b)).2.2.2.2.2.2.1
+    have hf := (raiseWm_frame a true (dataHeight b)).height
+    refine ⟨?_, rfl⟩
+    show (raiseWm a true (dataHeight b)).1.n.dataWm = (raiseWm a true (dataHeight b)).1.n.store.height
+    rw [h7, hf, hh]; omega
 
-/-- production is refused, no header is pending, and all blocks above the data watermark are empty -/
-structure Dead (c : Cfg) (a : ANode) : Prop where
-  refuses : pendingRefuses c a.n = true
-  hdr : a.n.store.height = a.n.hdrWm
-  data : DataIdle a
+/-- `DataOK` survives a data iteration (blocks and height are untouched, the watermark only grows) -/
+theorem dataOK_dataIter {a : ANode} (hok : DataOK a.n.store a.n.dataWm) (script : List DAAns) :
+    DataOK (dataIter a script).1.n.store (dataIter a script).1.n.dataWm := by
+  obtain ⟨items, hi, _⟩ := dataIter_iter a script
+  have hmono : a.n.dataWm ≤ (dataIter a script).1.n.dataWm := hi.wmMono
+  intro h h1 h2
+  rw [hi.frame.height] at h2
+  rw [hi.frame.getBlock]
+  exact hok h (by omega) h2
 
-theorem Dead.step {c : Cfg} {a : ANode} (d : Dead c a) (act : Act) :
-    Dead c (stepA c a act) ∧ (stepA c a act).n.store.height = a.n.store.height := by
-  cases act with
-  | produce r e =>
-    have : (publish c a.n r e).1 = a.n := by unfold publish; rw [if_pos d.refuses]
-    have hst : stepA c a (.produce r e) = a := by
-      show { a with n := (publish c a.n r e).1 } = a
-      rw [this]
-    rw [hst]; exact ⟨d, rfl⟩
-  | subH s =>
-    have : stepA c a (.subH s) = a := by show (headersIter a s).1 = a; rw [headersIter_idle d.hdr]
-    rw [this]; exact ⟨d, rfl⟩
-  | subD s =>
-    have : stepA c a (.subD s) = a := (dataIter_idle d.data s).1
-    rw [this]; exact ⟨d, rfl⟩
-  | incl =>
-    have hi : PassInv a (includerIter a).1 (includerIter a).2 :=
-      includerPass_inv (a.n.store.height + 1) a a [] (PassInv.init a)
-    have h1 : (includerIter a).1.n.store.height = a.n.store.height := hi.frame.height
-    have h2 : (includerIter a).1.n.hdrWm = a.n.hdrWm := hi.frame.hdrWm
-    have h3 : (includerIter a).1.n.dataWm = a.n.dataWm := hi.frame.dataWm
-    refine ⟨⟨?_, ?_, ?_⟩, h1⟩
-    · show pendingRefuses c (includerIter a).1.n = true
-      have := d.refuses
-      unfold pendingRefuses at this ⊢
-      rw [h1, h2, h3]; exact this
-    · show (includerIter a).1.n.store.height = (includerIter a).1.n.hdrWm
-      rw [h1, h2]; exact d.hdr
-    · intro h ha hb
-      have ha' : a.n.dataWm < h := by rw [← h3]; exact ha
-      have hb' : h ≤ a.n.store.height := by rw [← h1]; exact hb
-      obtain ⟨b, r1, r2⟩ := d.data h ha' hb'
-      exact ⟨b, by show (includerIter a).1.n.store.getBlock h = _; rw [hi.frame.getBlock]; exact r1, r2⟩
+/-- **two data ticks clear the data counter**: an accepting tick passes every non-empty block, the next tick (any
+answers) passes the trailing empty ones — for every mix of empty and non-empty blocks, all-empty included -/
+theorem data_two_ticks (a : ANode) (fails tail s2 : List DAAns) (htail : tail.headD (.ok none) = .ok none)
+    (hnc : DAAns.canceled ∉ fails) (hf : fails.length < maxSubmitAttempts)
+    (hok : DataOK a.n.store a.n.dataWm) (hle : a.n.dataWm ≤ a.n.store.height) :
+    (dataIter (dataIter a (fails ++ tail)).1 s2).1.n.dataWm = (dataIter (dataIter a (fails ++ tail)).1 s2).1.n.store.height :=
+  (dataIter_idle_reaches (dataIter_accepting a fails tail htail hnc hf hok hle) (dataOK_dataIter hok _)
+    (dataIter_wm_le a _ hok hle) s2).1
 
-/-- **a dead node stays dead for ever**: whatever the sequencer, the DA layer and the scheduler do, production is
-refused and the chain height never changes again -/
-theorem Dead.forever {c : Cfg} {a : ANode} (d : Dead c a) (acts : List Act) :
-    Dead c (runA c a acts) ∧ (runA c a acts).n.store.height = a.n.store.height := by
-  induction acts generalizing a with
-  | nil => exact ⟨d, rfl⟩
-  | cons act acts ih =>
-    obtain ⟨d', h'⟩ := d.step act
-    obtain ⟨d'', h''⟩ := ih d'
-    exact ⟨d'', h''.trans h'⟩
+/-- with a non-empty last block one accepting data tick is enough -/
+theorem dataIter_reaches (a : ANode) (fails tail : List DAAns) (htail : tail.headD (.ok none) = .ok none)
+    (hnc : DAAns.canceled ∉ fails) (hf : fails.length < maxSubmitAttempts)
+    (hok : DataOK a.n.store a.n.dataWm) (hlt : a.n.dataWm < a.n.store.height)
+    (hlast : ∀ b, a.n.store.getBlock a.n.store.height = some b → b.data.txs ≠ []) :
+    (dataIter a (fails ++ tail)).1.n.dataWm = (dataIter a (fails ++ tail)).1.n.store.height := by
+  have hidle := dataIter_accepting a fails tail htail hnc hf hok (by omega)
+  have hle' := dataIter_wm_le a (fails ++ tail) hok (by omega)
+  obtain ⟨items, hi, _⟩ := dataIter_iter a (fails ++ tail)
+  have hht : (dataIter a (fails ++ tail)).1.n.store.height = a.n.store.height := hi.frame.height
+  by_cases heq : (dataIter a (fails ++ tail)).1.n.dataWm = (dataIter a (fails ++ tail)).1.n.store.height
+  · exact heq
+  · exfalso
+    obtain ⟨b, hb, he⟩ := hidle _ (by omega) (Nat.le_refl _)
+    rw [hht, hi.frame.getBlock] at hb
+    exact hlast b hb he
 
 end Submit
